@@ -3,11 +3,11 @@ From Coq Require Import List NArith ZArith Bool.
 From K.Model Require Export C14.
 Import ListNotations.
 
-Record case := mkcase {
-  c_g : guards;             (* which variant of the code the observations are compared with (gfixed on every run) *)
-  c_t : torrent; c_have : list bool; c_bfull : bool;
-  c_hs : hshake; c_msgs : list wmsg;
-  c_obs : obs }.
+Inductive case :=
+| mkcase (g : guards)       (* which variant of the code the observations are compared with (gfixed on every run) *)
+         (t : torrent) (have : list bool) (bfull : bool) (hs : hshake) (msgs : list wmsg) (o : obs)
+| mkscase (guard : bool)    (* incoming connections at a real scheduler: attempts, observed results *)
+          (atts : list sattempt) (o : list Z).
 
 Fixpoint idx_filter (f : case -> bool) (i : N) (cs : list case) : list N :=
   match cs with
@@ -15,7 +15,16 @@ Fixpoint idx_filter (f : case -> bool) (i : N) (cs : list case) : list N :=
   | c :: t => if f c then i :: idx_filter f (N.succ i) t else idx_filter f (N.succ i) t
   end.
 
-Definition mismatches (cs : list case) : list N :=
-  idx_filter (fun c => negb (obs_eqb (run_case (c_g c) (c_t c) (c_have c) (c_bfull c) (c_hs c) (c_msgs c)) (c_obs c))) 0%N cs.
-Definition violations (cs : list case) : list N :=
-  idx_filter (fun c => negb (C14_check (c_t c) (c_have c) (c_bfull c) (c_hs c) (c_msgs c) (c_obs c))) 0%N cs.
+Definition mismatch (c : case) : bool :=
+  match c with
+  | mkcase g t have bfull hs msgs o => negb (obs_eqb (run_case g t have bfull hs msgs) o)
+  | mkscase guard atts o => negb (list_eqb Z.eqb (snd (sched_run guard sinit atts)) o)
+  end.
+Definition violation (c : case) : bool :=
+  match c with
+  | mkcase g t have bfull hs msgs o => negb (C14_check t have bfull hs msgs o)
+  | mkscase guard atts o => negb (C14_sched_check atts o)
+  end.
+
+Definition mismatches (cs : list case) : list N := idx_filter mismatch 0%N cs.
+Definition violations (cs : list case) : list N := idx_filter violation 0%N cs.
